@@ -29,7 +29,8 @@ V(ok, tag) == IF ok THEN {} ELSE {tag}
 NodePeer(n) == CASE n = "n1" -> "p1" [] n = "n2" -> "p2" [] n = "n3" -> "p3" [] n = "n4" -> "p4" [] OTHER -> "none"
 GnbName(i) == "g" \o ToString(i)
 
-H0 == [ assoc |-> {}, live |-> {}, far |-> {}, pdr |-> {}, qer |-> {}, urr |-> {}, q |-> {}, skip |-> FALSE ]
+H0 == [ assoc |-> {}, live |-> {}, far |-> {}, pdr |-> {}, qer |-> {}, urr |-> {}, q |-> {}, seen |-> {}, skip |-> FALSE ]
+\* seen: every payload the kernel has handed up so far (C14: what is re-injected is one of them, unchanged)
 \* live: [seid, cp, node]; far: [seid, id, aa, teid, gnb]; pdr: [seid, id, far, qers]; qer: [seid, id, qfi]
 \* urr: [seid, id, perio, period, volum]; q: [seid, pdr, pkts (sequence of payload hex strings)]
 
@@ -88,8 +89,9 @@ VBuf(h, L) ==
        THEN V(Len(ds) = e.n /\ \A i \in DOMAIN ds : ds[i].to = NodePeer(s.node) /\ ds[i].seid = s.cp /\ ds[i].dldr = <<e.pdr>> /\ ds[i].rpts = << >>,
               "C13:downlink data notification not raised towards the owning SMF for the PDR that buffered")
        ELSE V(L.out = << >>, "C13:downlink data notification raised although not requested") }
-HBuf(h, L) ==
-  LET e == L.e IN
+HBuf(h0, L) ==
+  LET e == L.e
+      h == [h0 EXCEPT !.seen = @ \cup Rng(BurstPayloads(L))] IN
   IF e.seid \in LiveSeids(h) /\ BitSet(e.action, ACT_BUFF)
   THEN [h EXCEPT !.q = SetQ(@, e.seid, e.pdr, Pushed(QOf(h, e.seid, e.pdr), BurstPayloads(L)))]
   ELSE h
@@ -238,6 +240,24 @@ HNext0(h, L) ==
     [] e.t = "kbuf" -> HBuf(h, L)
     [] OTHER -> h
 
+\* ------------------------------------------------------------------ C14 on the wire: every G-PDU seen at a gNB socket
+\* (read by an independent decoder that follows the flags: vf2ParseGpdu)
+VGpdu(h, L) ==
+  LET e == L.e
+      sd == e.seid
+      rel == e.t = "mod" /\ sd \in LiveSeids(h) /\ Len(UpdAA(e)) = 1
+      o == UpdAA(e)[1]
+      pdrs == PdrsOfFar(h, sd, o.id)
+      flows(g) == {QfiOf(h, sd, p) : p \in {x \in pdrs : g.payload \in Rng(QOf(h, sd, x.id))}}
+  IN IF L.gpdu = << >> THEN {} ELSE UNION {
+       V(\A g \in Rng(L.gpdu) : g.bad = "", "C14:a re-injected packet is not a well-formed GTPv1-U G-PDU"),
+       V(\A g \in Rng(L.gpdu) : g.bad = "" => g.payload \in h.seen,
+         "C14:the T-PDU delimited by the header of a re-injected packet is not a packet that was handed up (payload changed / header length)"),
+       IF ~rel THEN {} ELSE
+       V(\A g \in Rng(L.gpdu) : (g.bad = "" /\ Cardinality(flows(g)) = 1) =>
+            LET q == CHOOSE q \in flows(g) : TRUE IN IF q = 0 THEN ~g.ext ELSE g.ext /\ g.qfi = q,
+         "C14:PDU Session Container missing, superfluous or carrying another QFI than the flow's") }
+
 VerdictL2x(h, L, h2) ==
   LET e == L.e
   IN IF h.skip \/ e.t = "init" THEN {}
@@ -250,6 +270,7 @@ VerdictL2x(h, L, h2) ==
          [] e.t = "stop" -> UNION { V(L.tickers = 0, "C15:closing the periodic server did not release all period timers"),
                                     V(e.tag = "", "C17:goroutines still running after Stop") }
          [] OTHER -> V(L.gpdu = << >>, "C13:packets emitted without a FAR switching to forwarding"),
+       IF e.t = "stop" THEN {} ELSE VGpdu(h, L),
        IF e.t = "stop" THEN {} ELSE VQueues(h2, L),
        IF e.t = "stop" THEN {} ELSE VKernel(h2, L),
        IF e.t \in {"est", "mod", "del", "assoc", "tick"} THEN VTickers(h2, L) ELSE {} }
